@@ -3,7 +3,7 @@
  *
  * kind S (sequential, one controlled thread, no ABT_init needed).  One
  * execution = one shard: all strings over the alphabet that start with a
- * given pair of characters (100 shards = two abtmc_choose(10)), looped inside
+ * given triple of characters (1000 shards = three abtmc_choose(10)), looped inside
  * the execution.  Shards additionally carry a slice of the boundary-numeral
  * corpus (every decimal around every type limit with sign prefixes, leading
  * zeros and junk suffixes).
@@ -20,6 +20,7 @@ typedef struct {
 
 static const cfg_t cfgs[] = {
     { "all strings len<=6 + boundary numerals", 1, 6 },
+    { "all strings len<=7 + boundary numerals", 0, 7 },
     { "all strings len<=8 + boundary numerals", 0, 8 },
 };
 
@@ -274,26 +275,32 @@ static void scenario(int cfg)
     abtmc_window_begin();
     int a = abtmc_choose(NALPHA, ABTMC_B_FREE);
     int b = abtmc_choose(NALPHA, ABTMC_B_FREE);
+    int c = abtmc_choose(NALPHA, ABTMC_B_FREE);
     abtmc_window_end();
-    int shard = a * NALPHA + b;
+    int shard = (a * NALPHA + b) * NALPHA + c;
 
     if (shard == 0) {
-        /* the strings of length 0 and 1 */
+        /* the strings of length 0, 1 and 2 */
         check_one("");
         for (int i = 0; i < NALPHA; i++) {
-            char s[2] = { ALPHA[i], 0 };
+            char s[3] = { ALPHA[i], 0, 0 };
             check_one(s);
+            for (int j = 0; j < NALPHA; j++) {
+                s[1] = ALPHA[j];
+                check_one(s);
+            }
         }
     }
-    int fixed[2] = { a, b };
-    for (int len = 2; len <= C->maxlen; len++) {
+    int fixed[3] = { a, b, c };
+    for (int len = 3; len <= C->maxlen; len++) {
         c20_enum e;
-        c20_enum_start(&e, ALPHA, len, fixed, 2);
+        c20_enum_start(&e, ALPHA, len, fixed, 3);
         do {
             check_one(e.str);
-        } while (c20_enum_next(&e, 2));
+        } while (c20_enum_next(&e, 3));
     }
-    boundary_numerals(shard, NALPHA * NALPHA);
+    unsigned classes_enum = classes;
+    boundary_numerals(shard, NALPHA * NALPHA * NALPHA);
 
     abtmc_check(abtmc_ledger_live() == live0, "atoi_allocates",
                 "string-to-integer routines left %ld allocations",
@@ -305,10 +312,11 @@ static void scenario(int cfg)
     abtmc_stat("atoi_strings", n_cases);
     abtmc_stat("atoi_not_a_number", n_err);
     abtmc_stat("atoi_saturated_u64", n_ovf);
-    /* which result classes this shard produced: bit0 int underflow, bit1 int
+    /* which result classes the enumerated strings of this shard / all its
+     * strings produced: bit0 int underflow, bit1 int
      * overflow, bit2 u32 overflow, bit3 u32 negative, bit4 u64 overflow, bit5
      * u64 negative, bit6 not-a-number, bit7 exact value */
-    abtmc_observe("classes=%02x", classes);
+    abtmc_observe("enumerated=%02x corpus=%02x", classes_enum, classes);
     free(tailbuf);
 }
 
